@@ -38,6 +38,11 @@ checks = {
    note="The JSON decoder is replaced by the R1 contract (harness/jrpc2/stub.go, same cut natively for replay). limit <= 3 (quick) / 4 (thorough); HTTP status and undecodable-body handling inside do() are outside (behind net/http and goccy).",
    technique="go/ssa symbolic execution -> SMT (z3) with a nondeterministic node stub; native replay with the same cut",
    design="5/C07"),
+ "C08": dict(
+   text="Bounded symbolic model checking of the real cache code (cache.get, pruneMaxRead, pruneSegments, NumHash.get/update/error, Client.Latest, Client.Get cached path, logs/receipts/traces attaching to shared cached blocks, eth.Logs.Add) against an honest unchanging node: every order of n requests over two ranges and two callers with different log filters, node failures as solver Booleans; z3/engine decide same data as uncached, matching log present exactly once, no log twice, no cached error, reuse <= maxreads per fetch, at most five segments; head cache: announced-pair, floor, reuse bound.",
+   note="Sequential request sequences only (enumerated orders); concurrent interleavings of the cache's two critical sections are not explored. n <= 3 (quick) / 5 (thorough).",
+   technique="go/ssa symbolic execution over enumerated request orders -> SMT (z3); native replay with the same cut",
+   design="5/C08"),
  "C09": dict(
    text="Bounded symbolic model checking of the real ABI type parser (Input.ABIType, parseArray, hasStatic, sizeof) with symbolic array-length digits, and of the real decoder (Result.Scan, scan, GetRow) against a reference ABI encoder and row rule over 18 type trees with all values symbolic; each decoder instance is used twice.",
    note="Type trees and lengths are case-split (catalogue in harness/dig/common.go); values are solver-quantified. Reference encoder/row rule are mine (harness/dig/c09.go), compiled natively for replay. Overlapping/out-of-order tails and T[0] are outside.",
@@ -63,6 +68,11 @@ checks = {
    note="Keccak-256 is trusted (computed natively by the engine on concrete input; one known-answer vector as smoke test). Layouts/shapes case-split.",
    technique="go/ssa symbolic execution -> SMT (z3); native replay",
    design="5/C13"),
+ "C14": dict(
+   text="Bounded symbolic model checking of the real planning pipeline end to end (config.AddRequiredFields -> dig.New -> Integration.Filter -> glf.New -> jrpc2.Client.Get and fetchers -> dig.Integration.Insert -> COPY rows): for all pairs of the 28 field names (with and without an event) and class-wise triples, the honest node supplies exactly the members each JSON-RPC method returns as non-zero symbolic values; every stored cell must equal the node's value.",
+   note="The per-method field table (harness/jrpc2/node.go) is transcribed from the Ethereum JSON-RPC spec and is the oracle. One block/tx/log/trace per run. Domain restrictions stated in evidence (log fields need an event; trace idx accompanies a trace field).",
+   technique="go/ssa symbolic execution of the real pipeline over enumerated field sets -> SMT (z3); native replay through both cuts",
+   design="5/C14"),
  "C17": dict(
    text="Bounded symbolic model checking of the real codec functions (eth.decode, Uint64/Byte/Bytes.UnmarshalJSON, Bytes.Write/MarshalJSON, DecodeHex/EncodeHex, encoding/hex from its own SSA, bint.Encode/Decode/size): every token of each length up to the bound is one symbolic byte array, z3 decides exactness, error and no-panic assertions for all contents; counterexamples are replayed natively with go test before being reported.",
    note="Bounds: token lengths listed in evidence.bounds (quick <=22/16 bytes, thorough <=40/70); lengths are case-split, contents solver-quantified. fmt's %x is modelled; allocator capacity rounding approximated. Nothing is claimed for longer inputs.",
@@ -71,7 +81,7 @@ checks = {
 }
 not_applicable = {
 }
-pending = ["C08","C14","C15","C16","C18","C19","C20"]
+pending = ["C15","C16","C18","C19","C20"]
 m = {
  "version": 1,
  "setup_cmd": "cd /verif/gosym && GOFLAGS=-mod=mod GOPROXY=off GOSUMDB=off GOTOOLCHAIN=local go build -o /verif/bin/gosym .",
